@@ -438,6 +438,25 @@ def loop_values(rng, n, order):
     return s.done()
 
 
+def loop_concurrent(rng, lanes, per):
+    """several goroutines write on the same GoatOverHttp connection at once (every call of a client multiplexer does):
+    one POST per envelope, each delivered exactly once and unchanged"""
+    s = Script('httploop', 'httploop concurrent writers lanes=%d x %d' % (lanes, per))
+    g = ValGen(rng, big_every=11)
+    s.ctl('dial', end='A', addr='B')
+    ids = [s.op('w', end='A', addr='B', v=hval(g, 'srcA', small=True)), s.op('r', end='B', addr='A')]
+    s.wait(ids)
+    ids = []
+    for frm, to in (('A', 'B'), ('B', 'A')):
+        writes = [(ln, hval(g, 'src' + frm)) for ln in range(1, lanes + 1) for _ in range(per)]
+        rng.shuffle(writes)
+        ids += [s.op('r', end=to, addr=frm) for _ in writes]
+        ids += [s.op('w', end=frm, addr=to, v=v, lane=ln) for ln, v in writes]
+    s.wait(ids)
+    s.ctl('q')
+    return s.done()
+
+
 def loop_ctx(rng, variant):
     s = Script('httploop', 'httploop ctx %s' % variant, **(dict(timeout_s=10, interval_s=3) if variant in ('unreachable-after-timeout', 'blocked-write-timeout-cancel') else {}))
     g = ValGen(rng)
@@ -572,6 +591,8 @@ def generate(tier, rng):
             out.append(concurrent_writers(rng, 'channel', lanes, per, 'cap=0', cap=0))
         out.append(concurrent_writers(rng, 'websocket', 4, 8, 'compress=True', compress=True))
         out.append(concurrent_writers(rng, 'channel', 4, 8, 'cap=4', cap=4))
+        out.append(loop_concurrent(rng, 3, 4))
+        out.append(loop_concurrent(rng, 6, 6))
     # values: ~ per transport 120..300 (quick) / ~5000 (thorough)
     reps = 1 if quick else 22
     n = 12 if quick else 20
